@@ -1,28 +1,33 @@
 (** C12, schedules.  The composite operations of the code (RemoveManaged, the handshake's OCSP
-    refresh, reloadManagedCertificate, the maintenance passes) are not atomic: they read under the
-    lock, work outside it, and come back with what they read.  Here they are programs whose steps
-    are the critical sections of [certCache.mu]; a read hands the values it saw to the rest of the
-    program.  Any number of such threads run under an arbitrary scheduler.  Every schedule is a
-    sequential history of the atomic operations of [Cache.Model] carrying (possibly stale) copies,
-    and the invariant holds at every point of every schedule. *)
+    refresh, reloadManagedCertificate, the maintenance passes, AllMatchingCertificates) are not
+    atomic: they read under the lock, work outside it, and come back with what they read.  Here they
+    are programs whose steps are the critical sections of [certCache.mu]; a read hands the values it
+    saw to the rest of the program.  Any number of such threads run under an arbitrary scheduler,
+    over the state WITH its run-time capacity ([dstate]: SetOptions is one of the steps).  Every
+    schedule is a sequential history of the atomic operations of [Cache.Model] carrying (possibly
+    stale) copies, and the invariant -- with the capacity configured at that moment -- holds at
+    every point of every schedule. *)
 From CM Require Import Lib.Str Cache.Model Cache.AMapFacts Cache.Proofs.
 From Coq Require Import Arith.
 Open Scope nat_scope.
 
 Inductive prog :=
 | PDone
-| PAct (o : op) (k : prog)                          (* a mutating critical section *)
+| PAct (o : dop) (k : prog)                          (* a critical section of Cache.Model.dop *)
 | PReadCert (h : hash) (k : cert -> prog)           (* certCache.cache[h] (zero value if absent) *)
 | PReadName (n : name) (k : list cert -> prog)      (* getAllMatchingCerts(n) *)
-| PReadAll (k : list cert -> prog).                 (* getAllCerts / the scans of maintain.go *)
+| PReadAll (k : list cert -> prog)                  (* getAllCerts *)
+| PScan (renew : bool) (k : list cert -> prog).     (* the scan of a maintenance pass under RLock:
+                                                       the certificates it shows to the ConfigGetter *)
 
-Definition thread_step (cap : nat) (s : state) (p : prog) : state * prog :=
+Definition thread_step (d : dstate) (p : prog) : dstate * prog :=
   match p with
-  | PDone => (s, PDone)
-  | PAct o k => (step cap s o, k)
-  | PReadCert h k => (s, k (cache_get s h))
-  | PReadName n k => (s, k (get_all_matching_certs s n))
-  | PReadAll k => (s, k (map snd (cache s)))
+  | PDone => (d, PDone)
+  | PAct o k => (dstep d o, k)
+  | PReadCert h k => (d, k (cache_get (d_st d) h))
+  | PReadName n k => (d, k (get_all_matching_certs (d_st d) n))
+  | PReadAll k => (d, k (map snd (cache (d_st d))))
+  | PScan r k => (d, k (scan_view r (d_st d)))
   end.
 
 Fixpoint set_nth {A} (i : nat) (x : A) (l : list A) {struct l} : list A :=
@@ -33,16 +38,13 @@ Fixpoint set_nth {A} (i : nat) (x : A) (l : list A) {struct l} : list A :=
   end.
 
 (** the scheduler picks thread [i]; it runs one critical section *)
-Definition sched_step (cap : nat) (cfg : state * list prog) (i : nat) : state * list prog :=
+Definition sched_step (cfg : dstate * list prog) (i : nat) : dstate * list prog :=
   match nth_error (snd cfg) i with
-  | Some p => let sp := thread_step cap (fst cfg) p in (fst sp, set_nth i (snd sp) (snd cfg))
+  | Some p => let sp := thread_step (fst cfg) p in (fst sp, set_nth i (snd sp) (snd cfg))
   | None => cfg
   end.
-Definition run_sched (cap : nat) (sched : list nat) (cfg : state * list prog) : state * list prog :=
-  fold_left (sched_step cap) sched cfg.
-
-(** what one step contributes to the sequential history *)
-Definition step_ops (p : prog) : list op := match p with PAct o _ => [o] | _ => [] end.
+Definition run_sched (sched : list nat) (cfg : dstate * list prog) : dstate * list prog :=
+  fold_left sched_step sched cfg.
 
 (** ---- the code paths as programs ---- *)
 Definition managed_sel (sj : name * str) (c : cert) : bool :=
@@ -50,55 +52,72 @@ Definition managed_sel (sj : name * str) (c : cert) : bool :=
 (** Cache.RemoveManaged: one read lock per subject, then Remove(queue) *)
 Fixpoint prog_rm_collect (subjects : list (name * str)) (queue : list hash) : prog :=
   match subjects with
-  | [] => PAct (ORemoveHashes queue) PDone
+  | [] => PAct (DOp (ORemoveHashes queue)) PDone
   | sj :: r => PReadName (fst sj) (fun certs =>
                  prog_rm_collect r (queue ++ map c_hash (filter (managed_sel sj) certs)))
   end.
 Definition prog_remove_managed (subjects : list (name * str)) : prog := prog_rm_collect subjects [].
-(** handshakeMaintenance: the handshake's copy gets a new staple and is written back (guarded) *)
+(** handshakeMaintenance: the handshake's copy gets a new staple; under the lock the cached
+    certificate is re-read and the staple stored into it *)
 Definition prog_handshake_refresh (h : hash) (v : Z) : prog :=
-  PReadCert h (fun c => PAct (OWriteBack (set_ocsp c v)) PDone).
+  PReadCert h (fun c => PAct (DOp (OWriteBack (set_ocsp c v))) PDone).
 (** reloadManagedCertificate(oldCert) after a renewal: oldCert was read earlier *)
 Definition prog_reload (h : hash) (new : cert) (victim : option hash) : prog :=
-  PReadCert h (fun old => PAct (OReplace old new victim) PDone).
-(** updateOCSPStaples: scan, then one short write lock per updated certificate *)
+  PReadCert h (fun old => PAct (DOp (OReplace old new victim)) PDone).
+(** updateOCSPStaples: scan (getConfig per certificate), then one short write lock per update *)
 Definition prog_ocsp_maintenance (upd : list (hash * Z)) : prog :=
-  PReadAll (fun _ => fold_right (fun hv k => PAct (OSetOCSP [hv]) k) PDone upd).
+  PScan false (fun _ => fold_right (fun hv k => PAct (DOp (OSetOCSP [hv])) k) PDone upd).
 (** updateARI *)
 Definition prog_update_ari (h : hash) (v : str) : prog :=
-  PReadCert h (fun c => PAct (OSetARI (c_hash c) v) PDone).
+  PReadCert h (fun c => PAct (DOp (OSetARI (c_hash c) v)) PDone).
+(** RenewManagedCertificates: scan (getConfig per managed certificate), then updateARI for the
+    certificates the scan saw (the renewals / reloads it queues are [prog_reload]s of their own) *)
+Definition prog_renew_maintenance (ari_of : hash -> str) : prog :=
+  PScan true (fun certs =>
+    fold_right (fun c k => PAct (DOp (OSetARI (c_hash c) (ari_of (c_hash c)))) k) PDone certs).
 (** cacheCertificate, Cache.Remove *)
-Definition prog_cache (c : cert) (victim : option hash) : prog := PAct (OAdd c victim) PDone.
-Definition prog_remove (hs : list hash) : prog := PAct (ORemoveHashes hs) PDone.
+Definition prog_cache (c : cert) (victim : option hash) : prog := PAct (DOp (OAdd c victim)) PDone.
+Definition prog_remove (hs : list hash) : prog := PAct (DOp (ORemoveHashes hs)) PDone.
 (** removal of a copy read earlier (maintenance delete queue, on-demand policy refusal, failed
     renewal of a dynamically loaded certificate, revoked certificate that cannot be replaced) *)
 Definition prog_remove_current (h : hash) : prog :=
-  PReadCert h (fun c => PAct (ORemoveCert c) PDone).
+  PReadCert h (fun c => PAct (DOp (ORemoveCert c)) PDone).
+(** Cache.SetOptions, Cache.Stop *)
+Definition prog_set_options (z : Z) (victims : list hash) : prog := PAct (DSetCap z victims) PDone.
+Definition prog_stop : prog := PAct DStop PDone.
+(** Cache.AllMatchingCertificates: one read lock per candidate name, results appended *)
+Fixpoint prog_am_collect (names : list name) (acc : list cert) (ret : list cert -> prog) : prog :=
+  match names with
+  | [] => ret acc
+  | n :: r => PReadName n (fun certs => prog_am_collect r (acc ++ certs) ret)
+  end.
+Definition prog_all_matching (q : name) (ret : list cert -> prog) : prog :=
+  prog_am_collect (q :: wildcard_candidates q) [] ret.
 
 Section Sched.
   Variable names_of : hash -> list name.
-  Variable cap : nat.
-  Notation Inv := (Inv names_of cap).
-  Notation wf_op := (wf_op names_of).
+  Notation DInv := (DInv names_of).
+  Notation wf_dop := (wf_dop names_of).
   Notation wf_copy := (wf_copy names_of).
 
   (** a program is well formed if, whatever (well-formed) values its reads return, the operations
       it performs carry well-formed certificates *)
   Inductive wf_prog : prog -> Prop :=
   | wf_done : wf_prog PDone
-  | wf_act o k : wf_op o -> wf_prog k -> wf_prog (PAct o k)
+  | wf_act o k : wf_dop o -> wf_prog k -> wf_prog (PAct o k)
   | wf_readcert h k : (forall c, wf_copy c -> wf_prog (k c)) -> wf_prog (PReadCert h k)
   | wf_readname n k : (forall l, Forall wf_copy l -> wf_prog (k l)) -> wf_prog (PReadName n k)
-  | wf_readall k : (forall l, Forall wf_copy l -> wf_prog (k l)) -> wf_prog (PReadAll k).
+  | wf_readall k : (forall l, Forall wf_copy l -> wf_prog (k l)) -> wf_prog (PReadAll k)
+  | wf_scan r k : (forall l, Forall wf_copy l -> wf_prog (k l)) -> wf_prog (PScan r k).
 
   (** what a read returns is well formed *)
-  Lemma cache_get_wf s h : Inv s -> wf_copy (cache_get s h).
+  Lemma cache_get_wf cap s h : Inv names_of cap s -> wf_copy (cache_get s h).
   Proof.
     intros HI. unfold cache_get. destruct (alookup h (cache s)) as [c|] eqn:E.
     - left. destruct (inv_cert _ _ s HI h c E) as (-> & -> & _). reflexivity.
     - right. reflexivity.
   Qed.
-  Lemma all_cached_wf s : Inv s -> Forall wf_copy (map snd (cache s)).
+  Lemma all_cached_wf cap s : Inv names_of cap s -> Forall wf_copy (map snd (cache s)).
   Proof.
     intros HI. apply Forall_forall. intros c Hin. apply in_map_iff in Hin.
     destruct Hin as ([k c'] & <- & Hin). cbn.
@@ -106,17 +125,20 @@ Section Sched.
     left. destruct (inv_cert _ _ s HI k c' Hin) as (-> & -> & _). reflexivity.
   Qed.
 
-  Lemma thread_step_inv s p :
-    Inv s -> wf_prog p -> Inv (fst (thread_step cap s p)) /\ wf_prog (snd (thread_step cap s p)).
+  Lemma thread_step_inv d p :
+    DInv d -> wf_prog p -> DInv (fst (thread_step d p)) /\ wf_prog (snd (thread_step d p)).
   Proof.
-    intros HI Hwf. destruct Hwf as [|o k Ho Hk|h k Hk|n k Hk|k Hk]; cbn [thread_step fst snd].
+    intros HI Hwf. destruct Hwf as [|o k Ho Hk|h k Hk|n k Hk|k Hk|r k Hk]; cbn [thread_step fst snd].
     - split; [exact HI | constructor].
-    - split; [apply step_inv; assumption | exact Hk].
-    - split; [exact HI|]. apply Hk, cache_get_wf, HI.
+    - split; [apply dstep_inv; assumption | exact Hk].
+    - split; [exact HI|]. apply Hk, (cache_get_wf (d_cap d)), HI.
     - split; [exact HI|]. apply Hk. unfold get_all_matching_certs.
       apply Forall_forall. intros c Hin. apply in_map_iff in Hin. destruct Hin as (h & <- & _).
-      apply cache_get_wf, HI.
-    - split; [exact HI|]. apply Hk, all_cached_wf, HI.
+      apply (cache_get_wf (d_cap d)), HI.
+    - split; [exact HI|]. apply Hk, (all_cached_wf (d_cap d)), HI.
+    - split; [exact HI|]. apply Hk. unfold scan_view.
+      pose proof (all_cached_wf (d_cap d) (d_st d) HI) as Hall. rewrite Forall_forall in *.
+      intros c Hc. apply filter_In in Hc. apply Hall, Hc.
   Qed.
 
   Lemma Forall_set_nth {A} (P : A -> Prop) i x l : Forall P l -> P x -> Forall P (set_nth i x l).
@@ -126,8 +148,8 @@ Section Sched.
   Qed.
 
   Lemma sched_step_inv cfg i :
-    Inv (fst cfg) -> Forall wf_prog (snd cfg) ->
-    Inv (fst (sched_step cap cfg i)) /\ Forall wf_prog (snd (sched_step cap cfg i)).
+    DInv (fst cfg) -> Forall wf_prog (snd cfg) ->
+    DInv (fst (sched_step cfg i)) /\ Forall wf_prog (snd (sched_step cfg i)).
   Proof.
     intros HI Hwf. unfold sched_step. destruct (nth_error (snd cfg) i) as [p|] eqn:E; [|auto].
     assert (Hp : wf_prog p).
@@ -137,26 +159,26 @@ Section Sched.
   Qed.
 
   (** F: the invariant holds after every schedule of every pool of well-formed threads *)
-  Theorem sched_inv sched : forall s pool,
-    Inv s -> Forall wf_prog pool -> Inv (fst (run_sched cap sched (s, pool))).
+  Theorem sched_inv sched : forall d pool,
+    DInv d -> Forall wf_prog pool -> DInv (fst (run_sched sched (d, pool))).
   Proof.
     unfold run_sched.
-    assert (H : forall cfg, Inv (fst cfg) -> Forall wf_prog (snd cfg) ->
-              Inv (fst (fold_left (sched_step cap) sched cfg))).
+    assert (H : forall cfg, DInv (fst cfg) -> Forall wf_prog (snd cfg) ->
+              DInv (fst (fold_left sched_step sched cfg))).
     { induction sched as [|i sched IH]; intros cfg HI Hwf; cbn [fold_left]; [exact HI|].
       destruct (sched_step_inv cfg i HI Hwf) as [H1 H2]. apply IH; assumption. }
-    intros s pool HI Hwf. apply H; assumption.
+    intros d pool HI Hwf. apply H; assumption.
   Qed.
 
   (** atomic_ops_serialize: every schedule is a sequential history of well-formed operations *)
-  Theorem sched_serializes sched : forall s pool,
-    Inv s -> Forall wf_prog pool ->
-    exists ops, Forall wf_op ops /\ fst (run_sched cap sched (s, pool)) = run cap s ops.
+  Theorem sched_serializes sched : forall d pool,
+    DInv d -> Forall wf_prog pool ->
+    exists ops, Forall wf_dop ops /\ fst (run_sched sched (d, pool)) = drun d ops.
   Proof.
     unfold run_sched.
-    assert (H : forall cfg, Inv (fst cfg) -> Forall wf_prog (snd cfg) ->
-              exists ops, Forall wf_op ops /\
-                fst (fold_left (sched_step cap) sched cfg) = run cap (fst cfg) ops).
+    assert (H : forall cfg, DInv (fst cfg) -> Forall wf_prog (snd cfg) ->
+              exists ops, Forall wf_dop ops /\
+                fst (fold_left sched_step sched cfg) = drun (fst cfg) ops).
     { induction sched as [|i sched IH]; intros cfg HI Hwf; cbn [fold_left].
       - exists []. split; [constructor | reflexivity].
       - destruct (sched_step_inv cfg i HI Hwf) as [H1 H2].
@@ -164,14 +186,15 @@ Section Sched.
         unfold sched_step in *. destruct (nth_error (snd cfg) i) as [p|] eqn:E.
         + assert (Hp : wf_prog p).
           { apply nth_error_In in E. rewrite Forall_forall in Hwf. auto. }
-          cbn [fst]. destruct Hp as [|o k Ho Hk|h k Hk|n k Hk|k Hk]; cbn [thread_step fst].
+          cbn [fst]. destruct Hp as [|o k Ho Hk|h k Hk|n k Hk|k Hk|r k Hk]; cbn [thread_step fst].
           * exists ops. auto.
           * exists (o :: ops). split; [constructor; assumption | reflexivity].
           * exists ops. auto.
           * exists ops. auto.
           * exists ops. auto.
+          * exists ops. auto.
         + exists ops. auto. }
-    intros s pool HI Hwf. apply (H (s, pool)); assumption.
+    intros d pool HI Hwf. apply (H (d, pool)); assumption.
   Qed.
 
   (** ---- the code paths are well-formed programs ---- *)
@@ -180,6 +203,14 @@ Section Sched.
     induction subjects as [|sj r IH]; intros queue; cbn [prog_rm_collect].
     - constructor; [exact I | constructor].
     - constructor. intros l _. apply IH.
+  Qed.
+  Lemma am_collect_wf names ret :
+    (forall l, Forall wf_copy l -> wf_prog (ret l)) ->
+    forall acc, Forall wf_copy acc -> wf_prog (prog_am_collect names acc ret).
+  Proof.
+    intros Hret. induction names as [|n r IH]; intros acc Hacc; cbn [prog_am_collect].
+    - apply Hret, Hacc.
+    - constructor. intros l Hl. apply IH. apply Forall_app. auto.
   Qed.
 
   Theorem code_paths_wf :
@@ -190,7 +221,11 @@ Section Sched.
     (forall h v, wf_prog (prog_update_ari h v)) /\
     (forall c victim, wf_cert names_of c -> wf_prog (prog_cache c victim)) /\
     (forall hs, wf_prog (prog_remove hs)) /\
-    (forall h, wf_prog (prog_remove_current h)).
+    (forall h, wf_prog (prog_remove_current h)) /\
+    (forall z victims, wf_prog (prog_set_options z victims)) /\
+    wf_prog prog_stop /\
+    (forall ari_of, wf_prog (prog_renew_maintenance ari_of)) /\
+    (forall q ret, (forall l, Forall wf_copy l -> wf_prog (ret l)) -> wf_prog (prog_all_matching q ret)).
   Proof.
     repeat split.
     - intros subjects. apply rm_collect_wf.
@@ -203,21 +238,45 @@ Section Sched.
     - intros c victim Hc. constructor; [exact Hc | constructor].
     - intros hs. constructor; [exact I | constructor].
     - intros h. constructor. intros c Hc. constructor; [exact Hc | constructor].
+    - intros z victims. constructor; [exact I | constructor].
+    - constructor; [exact I | constructor].
+    - intros ari_of. constructor. intros l _. induction l as [|c l IH]; cbn [fold_right].
+      + constructor.
+      + constructor; [exact I | exact IH].
+    - intros q ret Hret. apply am_collect_wf; [exact Hret | constructor].
   Qed.
 End Sched.
 
 (** RemoveManaged run without interference is the model's [remove_managed] *)
-Lemma rm_collect_alone cap s subjects : forall queue,
-  exists n, fst (run_sched cap (repeat 0 n) (s, [prog_rm_collect subjects queue])) =
-            remove_hashes (queue ++ managed_queue s subjects) s.
+Lemma rm_collect_alone d subjects : forall queue,
+  exists n, fst (run_sched (repeat 0 n) (d, [prog_rm_collect subjects queue])) =
+            DSt (d_cap d) (remove_hashes (queue ++ managed_queue (d_st d) subjects) (d_st d)).
 Proof.
   induction subjects as [|sj r IH]; intros queue.
   - exists 1. cbn. rewrite app_nil_r. reflexivity.
-  - destruct (IH (queue ++ map c_hash (filter (managed_sel sj) (get_all_matching_certs s (fst sj))))) as [n Hn].
+  - destruct (IH (queue ++ map c_hash (filter (managed_sel sj) (get_all_matching_certs (d_st d) (fst sj))))) as [n Hn].
     exists (S n). cbn [repeat run_sched fold_left]. unfold run_sched in Hn.
     cbn [sched_step nth_error snd fst thread_step prog_rm_collect set_nth].
     rewrite Hn. unfold managed_queue. cbn [flat_map]. rewrite <- app_assoc. reflexivity.
 Qed.
-Theorem remove_managed_alone cap s subjects :
-  exists n, fst (run_sched cap (repeat 0 n) (s, [prog_remove_managed subjects])) = remove_managed subjects s.
-Proof. destruct (rm_collect_alone cap s subjects []) as [n Hn]. exists n. exact Hn. Qed.
+Theorem remove_managed_alone d subjects :
+  exists n, fst (run_sched (repeat 0 n) (d, [prog_remove_managed subjects])) =
+            dstep d (DOp (ORemoveManaged subjects)).
+Proof. destruct (rm_collect_alone d subjects []) as [n Hn]. exists n. exact Hn. Qed.
+
+(** AllMatchingCertificates run without interference hands the model's [all_matching] to its caller
+    and leaves the state alone *)
+Lemma am_collect_alone d ret names : forall acc,
+  exists n, run_sched (repeat 0 n) (d, [prog_am_collect names acc ret]) =
+            (d, [ret (acc ++ flat_map (get_all_matching_certs (d_st d)) names)]).
+Proof.
+  induction names as [|x r IH]; intros acc.
+  - exists 0. cbn. rewrite app_nil_r. reflexivity.
+  - destruct (IH (acc ++ get_all_matching_certs (d_st d) x)) as [n Hn].
+    exists (S n). cbn [repeat run_sched fold_left]. unfold run_sched in Hn.
+    cbn [sched_step nth_error snd fst thread_step prog_am_collect set_nth].
+    rewrite Hn. cbn [flat_map]. rewrite <- app_assoc. reflexivity.
+Qed.
+Theorem all_matching_alone d q ret :
+  exists n, run_sched (repeat 0 n) (d, [prog_all_matching q ret]) = (d, [ret (all_matching (d_st d) q)]).
+Proof. destruct (am_collect_alone d ret (q :: wildcard_candidates q) []) as [n Hn]. exists n. exact Hn. Qed.
